@@ -42,6 +42,7 @@ func runC01(c *Ctx, r *Report) {
 	c09DatagramNotDropped(c, r, "C01.R18") // no byte lost on UDP: a datagram the server loop has taken from the socket reader is queued for its association or explicitly released, on every path
 	c01R5(c, r, "C01.R5")
 	c09R4(c, r, "C01.R19") // the order of a UDP client's bytes is the order of its datagrams: each is handed to the association's queue by the loop itself, one blocking send in arrival order (not by goroutines that race for the queue)
+	c01PrefetchKeepsBytes(c, r, "C01.R20")
 	c01R6(c, r, "C01.R6")
 	c01R7(c, r, "C01.R7")
 	c01R9(c, r, "C01.R9")
